@@ -11,6 +11,7 @@ Every path of a function (callees defined in tulz inlined) becomes a list of Ev 
     .node  = AST node (site)
 The rules scan these lists (typestate, ordering, must-pass-through on every path).
 """
+import re
 from symex import Domain, Exec, Lin, Enum, Unknown, Record, Ref, Closure, Sym, State, as_lin
 from facts import Node, strip_targs
 
@@ -162,6 +163,7 @@ class EvDomain(Domain):
             return Sym(f'elem({b},{i})')
         if k != 'call': return Unknown(k)
         q = strip_targs(n.calleeq or '')
+        if n.id in getattr(self, '_algo', {}): q = self.algo_name(n)[0]
         if n.id in getattr(self, '_algo', {}) and q in ('std::any_of', 'std::all_of', 'std::none_of'):
             X, ret = self._algo[n.id]
             empty = self.container_empty(X)
@@ -201,7 +203,7 @@ class EvDomain(Domain):
             e = self.ev(st, Ev('opaque', n, name=q, obj=self.resolve_obj(ex, args[0], st, fr), val=vals[0], args=vals[1:]), fr)
             e.argobjs = [args[0]]
             return Sym('cb-result')
-        if n.n('calleeexpr') is not None or (n.ck == 'op' and n.op == '()' and (not n.callee_in_root or (n.callee_def or '').startswith('witness/'))):
+        if (n.n('calleeexpr') is not None or (n.ck == 'op' and n.op == '()' and (not n.callee_in_root or (n.callee_def or '').startswith('witness/')))) and not (n.calleeq or '').startswith('std::ranges::__'):
             cal = n.n('calleeexpr') if n.n('calleeexpr') is not None else obj
             on2 = self.resolve_obj(ex, cal, st, fr) if cal is not None else None
             raw = [ex._value(a, st, fr) if a is not None else None for a in args]
@@ -239,19 +241,41 @@ class EvDomain(Domain):
         """emptiness of container X as far as the rule's row says (True / False / None)"""
         return self.atom(f'{X}.empty')
 
+    @staticmethod
+    def algo_name(n):
+        """(std name, arguments) of a standard algorithm call, the C++20 range form included: `std::ranges::for_each(c, f)` is a call of
+        the function object std::ranges::__for_each_fn -> ('std::for_each', [c, f])"""
+        q = strip_targs(n.calleeq or '')
+        args = [a for a in n.ns('args') if a is not None]
+        m = re.match(r'std::ranges::__(\w+?)_fn::operator\(\)$', q)
+        if m: return 'std::' + m.group(1), args[1:]
+        if q.startswith('std::ranges::'): return 'std::' + q[len('std::ranges::'):], args
+        return q, args
+
+    def algo_range(self, ex, args, st, fr):
+        """name of the container a standard algorithm walks: from `X.begin()` or from the range argument itself"""
+        if not args: return None
+        v0 = fr.vals.get(args[0].id)
+        if isinstance(v0, Sym) and v0.name.endswith('.begin'): return v0.name[:-6]
+        a0 = args[0]
+        while a0 is not None and a0.k == 'cast': a0 = a0.n('sub')
+        if a0 is not None and ((a0.k == 'member' and a0.field) or a0.k == 'ref') and re.match(r'(const )?std::(__cxx11::)?(list|forward_list|vector|deque|set|map|unordered_map|unordered_set|multimap|multiset)<', (a0.type or a0.d.get('decltype') or a0.d.get('ftype') or '')):
+            return self.resolve_obj(ex, a0, st, fr)
+        return None
+
     def sync_closures(self, ex, n, st, fr):
         q = n.calleeq or ''
-        if strip_targs(q) in ('std::any_of', 'std::all_of', 'std::none_of'):
+        qn, aargs = self.algo_name(n)
+        if qn in ('std::any_of', 'std::all_of', 'std::none_of'):
             # the predicate is evaluated on a representative element of [X.begin(), X.end())
-            args = [a for a in n.ns('args') if a is not None]
-            v0 = fr.vals.get(args[0].id) if args else None
+            args = aargs
+            X = self.algo_range(ex, args, st, fr)
             clo = next((fr.vals.get(a.id) for a in args if isinstance(fr.vals.get(a.id), Closure)), None)
-            if isinstance(v0, Sym) and v0.name.endswith('.begin') and clo is not None and clo.fn is not None:
-                X = v0.name[:-6]
+            if X is not None and clo is not None and clo.fn is not None:
                 self._algo = getattr(self, '_algo', {})
                 self._algo[n.id] = [X, None]
                 if self.container_empty(X) is True: return []
-                self.ev(st, Ev('anyof', n, name=strip_targs(q), obj=X, val=clo), fr)
+                self.ev(st, Ev('anyof', n, name=qn, obj=X, val=clo), fr)
                 return [(clo, [Sym(X + '.front')])]
         if q.startswith('std::condition_variable::wait'):
             out = []
@@ -265,18 +289,16 @@ class EvDomain(Domain):
             v0 = ex._rvalue(args[0], st, fr) if args else None
             if isinstance(v0, Closure) and v0.fn is not None:
                 return [(v0, [ex._value(a, st, fr) for a in args[1:]])]
-        if strip_targs(q) in ('std::for_each', 'std::ranges::for_each'):
+        if qn == 'std::for_each':
             # the callable is applied to every element of [first, last): one representative invocation on `X.front`
-            args = [a for a in n.ns('args') if a is not None]
-            v0 = fr.vals.get(args[0].id) if args else None
+            args = aargs
+            X = self.algo_range(ex, args, st, fr)
             clo = next((fr.vals.get(a.id) for a in args if isinstance(fr.vals.get(a.id), Closure)), None)
-            if isinstance(v0, Sym) and v0.name.endswith('.begin') and clo is not None and clo.fn is not None:
-                X = v0.name[:-6]
-                self.ev(st, Ev('foreach', n, name=q, obj=X, val=clo), fr)
+            if X is not None and clo is not None and clo.fn is not None:
+                self.ev(st, Ev('foreach', n, name='std::for_each', obj=X, val=clo), fr)
                 return [(clo, [Sym(X + '.front')])]
-            if isinstance(v0, Sym) and v0.name.endswith('.begin') and len(args) == 3 and (args[2].type or '').replace('const ', '').startswith('std::default_delete'):
+            if X is not None and args and (args[-1].type or '').replace('const ', '').startswith('std::default_delete'):
                 # std::for_each(first, last, std::default_delete<T>()): one representative element, deleted
-                X = v0.name[:-6]
                 self.ev(st, Ev('foreach', n, name=q, obj=X, val=None), fr)
                 self.ev(st, Ev('delete', n, val=Sym(X + '.front'), obj=X, name='std::default_delete'), fr)
         return []
@@ -295,6 +317,10 @@ class EvDomain(Domain):
         if q in ('std::count_if', 'std::count', 'std::distance', 'std::ranges::count_if') and len(vals) >= 2 and isinstance(vals[0], Sym) and isinstance(vals[1], Sym) \
                 and vals[0].name.endswith('.begin') and vals[1].name == vals[0].name[:-6] + '.end' and self.container_empty(vals[0].name[:-6]) is True:
             return Lin.const(0)          # nothing to count in a container the row says is empty
+        qn_, aargs_ = self.algo_name(n)
+        if qn_ in ('std::count_if', 'std::count', 'std::distance') and qn_ != q:
+            X_ = self.algo_range(ex, aargs_, st, fr)          # the range form: std::ranges::count_if(container, pred)
+            if X_ is not None and self.container_empty(X_) is True: return Lin.const(0)
         if base in ('begin', 'cbegin'): return Sym(f'{on}.begin')
         if base in ('end', 'cend'): return Sym(f'{on}.end')
         if base in ('front',): return Sym(f'{on}.front')
